@@ -4,7 +4,7 @@
 (* header values a sample was stored with (hdr) and what an independent     *)
 (* RIFF walker read from the smpl chunk of the file the real tool built     *)
 (* from it (obs; obs.refused = the tool raised instead of building).  A     *)
-(* line is accepted iff Smpl!Failed(hdr, obs) = {}.  The whole batch is     *)
+(* line (kind akai / roland) is accepted iff Smpl!Failed / FailedRoland = {}.  The whole batch is     *)
 (* consumed; rejected lines are reported with the failing clauses.         *)
 (***************************************************************************)
 EXTENDS Smpl, Json, IOUtils, TLC
@@ -17,7 +17,7 @@ tvars == <<h, l, rejected>>
 TraceInit == /\ h = [root |-> 60, semi |-> 0, cb |-> 0, rate |-> 44100, lt |-> 2, loops |-> <<>>]
              /\ l = 1 /\ rejected = <<>>
 TraceNext == /\ l <= Len(TraceLog)
-             /\ LET bad == Failed(TraceLog[l].hdr, TraceLog[l].obs) IN
+             /\ LET bad == IF TraceLog[l].kind = "roland" THEN FailedRoland(TraceLog[l].hdr, TraceLog[l].obs) ELSE Failed(TraceLog[l].hdr, TraceLog[l].obs) IN
                 rejected' = IF bad = {} THEN rejected ELSE Append(rejected, [line |-> l, id |-> TraceLog[l].id, clauses |-> bad])
              /\ l' = l + 1 /\ UNCHANGED h
 TraceSpec == TraceInit /\ [][TraceNext]_tvars
